@@ -1057,3 +1057,341 @@ Proof.
       let c1 := fresh in let E := fresh in intros c1 E; vm_compute in E; discriminate
   end.
 Qed.
+
+(* ================================================================== named axes *)
+Definition names (l : layout) : list nat :=
+  flat_map (fun x => match x with LName k => [k] | _ => [] end) l.
+
+(* every named axis of every stored array has the size recorded in the axes cache: in particular
+   one size across all arrays (and inside one array) *)
+Definition AxesOk (c : coll) : Prop :=
+  NoDup (map fst (c_arrays c)) /\
+  (forall nm e, In (nm, e) (c_arrays c) -> NoDup (names (e_lay e))) /\
+  (forall nm e ax z, In (nm, e) (c_arrays c) -> In (ax, z) (entry_axes e) -> lookup ax (c_axes c) = Some z).
+
+Lemma in_entry_axes e ax z :
+  In (ax, z) (entry_axes e) <->
+  exists i, i < length (e_lay e) /\ nth i (e_lay e) LFree = LName ax /\
+            z = nth (pos_of (length (shp (e_arr e))) (e_lay e) i) (shp (e_arr e)) 0.
+Proof.
+  unfold entry_axes, named_axes. split.
+  - intros H. apply in_map_iff in H. destruct H as [p [Hp Hin]].
+    apply in_flat_map in Hin. destruct Hin as [i [Hi Hm]]. apply in_seq in Hi.
+    destruct (nth i (e_lay e) LFree) eqn:E; try contradiction.
+    destruct Hm as [<-|[]]. simpl in Hp. inversion Hp; subst. exists i. repeat split; auto. lia.
+  - intros [i [Hi [Hn ->]]]. apply in_map_iff.
+    exists (pos_of (length (shp (e_arr e))) (e_lay e) i, ax). split; [reflexivity|].
+    apply in_flat_map. exists i. split; [apply in_seq; lia|]. rewrite Hn. now left.
+Qed.
+
+Lemma entry_axes_ext e e' :
+  e_lay e' = e_lay e -> shp (e_arr e') = shp (e_arr e) -> entry_axes e' = entry_axes e.
+Proof. intros H1 H2. unfold entry_axes. now rewrite H1, H2. Qed.
+
+Lemma in_gna arrs ign ax z :
+  In (ax, z) (gna arrs ign) <->
+  exists nm e, In (nm, e) arrs /\ (forall k, ign = Some k -> k <> nm) /\ In (ax, z) (entry_axes e).
+Proof.
+  unfold gna. rewrite <- in_rev, in_flat_map. split.
+  - intros [[nm e] [Hin H]]. simpl in H. exists nm, e. destruct ign as [k|].
+    + destruct (Nat.eqb_spec k nm); [contradiction|]. repeat split; auto. intros k' E. inversion E. now subst.
+    + repeat split; auto. discriminate.
+  - intros [nm [e [Hin [Hk H]]]]. exists (nm, e). split; [assumption|]. simpl. destruct ign as [k|]; [|assumption].
+    destruct (Nat.eqb_spec k nm) as [->|]; [|assumption]. exfalso. now apply (Hk nm).
+Qed.
+
+Lemma lookup_consistent {A} (M : list (nat * A)) k v :
+  In (k, v) M -> (forall v', In (k, v') M -> v' = v) -> lookup k M = Some v.
+Proof.
+  intros H Hc. destruct (in_lookup _ _ _ H) as [v' Hv]. rewrite Hv. f_equal. apply Hc. now apply lookup_in.
+Qed.
+
+(* ---- keys *)
+Lemma in_set_assoc_strong {A} k (v : A) m k' v' :
+  NoDup (map fst m) -> In (k', v') (set_assoc k v m) -> (k' = k /\ v' = v) \/ (k' <> k /\ In (k', v') m).
+Proof.
+  induction m as [|[k0 v0] m IH]; simpl; intros Hnd.
+  - intros [E|[]]. inversion E. auto.
+  - inversion Hnd as [|? ? Hnotin Hnd']; subst.
+    destruct (Nat.eqb_spec k k0) as [->|NE]; simpl.
+    + intros [E|H]; [inversion E; auto|]. right. split; [|auto].
+      intros ->. apply Hnotin. apply (in_map fst) in H. exact H.
+    + intros [E|H]; [inversion E; subst; right; split; auto|].
+      destruct (IH Hnd' H) as [?|[? ?]]; auto.
+Qed.
+
+Lemma set_assoc_keys {A} k (v : A) m : NoDup (map fst m) -> NoDup (map fst (set_assoc k v m)).
+Proof.
+  induction m as [|[k0 v0] m IH]; simpl; intros Hnd.
+  - constructor; [intros []|constructor].
+  - inversion Hnd as [|? ? Hnotin Hnd']; subst.
+    destruct (Nat.eqb_spec k k0) as [->|NE]; simpl; [constructor; auto|].
+    constructor; [|auto]. intros Hin. apply in_map_iff in Hin. destruct Hin as [[k1 v1] [E Hin]].
+    simpl in E. subst k1. apply in_set_assoc in Hin. destruct Hin as [[? _]|Hin]; [congruence|].
+    apply Hnotin. apply (in_map fst) in Hin. exact Hin.
+Qed.
+
+Lemma filter_keys {A} (f : nat * A -> bool) m : NoDup (map fst m) -> NoDup (map fst (filter f m)).
+Proof.
+  induction m as [|p m IH]; simpl; intros Hnd; [constructor|].
+  inversion Hnd as [|? ? Hnotin Hnd']; subst.
+  destruct (f p); simpl; [|auto]. constructor; [|auto].
+  intros Hin. apply Hnotin. apply in_map_iff in Hin. destruct Hin as [q [E Hq]].
+  apply filter_In in Hq. destruct Hq as [Hq _]. rewrite <- E. now apply in_map.
+Qed.
+
+(* ---- distinct names inside a layout *)
+Lemma names_index l ax i j :
+  NoDup (names l) -> nth i l LFree = LName ax -> nth j l LFree = LName ax -> i = j.
+Proof.
+  revert i j. induction l as [|x l IH]; intros i j Hnd Hi Hj.
+  - destruct i; discriminate.
+  - assert (Hin : forall k, nth k l LFree = LName ax -> In ax (names l)).
+    { intros k Hk. unfold names. apply in_flat_map. exists (LName ax). split; [|now left].
+      rewrite <- Hk. apply nth_In. destruct (Nat.lt_ge_cases k (length l)); [assumption|].
+      rewrite nth_overflow in Hk by assumption. discriminate. }
+    destruct i, j; simpl in Hi, Hj; auto.
+    + subst x. simpl in Hnd. inversion Hnd; subst. exfalso. eauto.
+    + subst x. simpl in Hnd. inversion Hnd; subst. exfalso. eauto.
+    + f_equal. apply IH; auto. unfold names in *. simpl in Hnd.
+      destruct x; simpl in Hnd; auto. now inversion Hnd.
+Qed.
+
+Lemma pos_of_inj pre rest ndim i j :
+  count_ell pre = 0 -> length pre + length rest <= ndim ->
+  i < length (pre ++ LEll :: rest) -> j < length (pre ++ LEll :: rest) ->
+  i <> length pre -> j <> length pre -> i <> j ->
+  pos_of ndim (pre ++ LEll :: rest) i <> pos_of ndim (pre ++ LEll :: rest) j.
+Proof.
+  intros Hc Hr Hi Hj Hi' Hj' Hne. unfold pos_of. rewrite ell_index_split by assumption.
+  rewrite app_length in *. simpl in *.
+  destruct (Nat.ltb_spec i (length pre)); destruct (Nat.ltb_spec j (length pre)); lia.
+Qed.
+
+(* ---- set *)
+Lemma check_named_spec axes sh l i ax :
+  check_named axes sh l = true -> i < length l -> nth i l LFree = LName ax ->
+  forall k, lookup ax axes = Some k -> nth (pos_of (length sh) l i) sh 0 = k.
+Proof.
+  unfold check_named. intros H Hi Hn k Hk. rewrite forallb_forall in H.
+  specialize (H i). rewrite Hn, Hk in H. apply Nat.eqb_eq. apply H. apply in_seq. lia.
+Qed.
+
+Lemma axes_set c name a lay rsz c' :
+  (forall l, lay = Some l -> NoDup (names l)) ->
+  AxesOk c -> set c name a lay rsz true = Ok c' -> AxesOk c'.
+Proof.
+  intros Hlay [Hk [Hn Hax]] Hs. unfold set in Hs.
+  set (l := match lay with Some l => l | None =>
+             match lookup name (c_arrays c) with Some e => e_lay e | None => [LEll] end end) in *.
+  assert (Hl : NoDup (names l)).
+  { unfold l. destruct lay; [now apply Hlay|]. destruct (lookup name (c_arrays c)) eqn:E.
+    - apply lookup_in in E. eauto.
+    - constructor. }
+  destruct (negb (count_ell l =? 1)); [discriminate|].
+  destruct (length (shp a) + 1 <? length l); [discriminate|].
+  set (a1 := if rsz then resize_named (gna (c_arrays c) (Some name)) a l else a) in *.
+  cbn [andb] in Hs. destruct (check_shape c (shp a1) l (Some name)) eqn:Hchk; [|discriminate].
+  cbn [negb] in Hs. inversion Hs; subst c'; clear Hs.
+  unfold check_shape in Hchk. apply andb_true_iff in Hchk. destruct Hchk as [Hcn _].
+  set (arrs := set_assoc name (mkE l a1) (c_arrays c)).
+  unfold AxesOk, with_arrays. simpl. fold arrs.
+  split; [now apply set_assoc_keys|]. split.
+  - intros nm e Hin. apply in_set_assoc in Hin. destruct Hin as [[_ ->]|Hin]; [exact Hl|eauto].
+  - (* pairwise consistency of the named sizes in the new dictionary *)
+    assert (Hold : forall nm e ax z, In (nm, e) arrs -> nm <> name -> In (ax, z) (entry_axes e) ->
+                   lookup ax (c_axes c) = Some z).
+    { intros nm e ax z Hin Hne Hz. apply (in_set_assoc_strong _ _ _ _ _ Hk) in Hin.
+      destruct Hin as [[? _]|[_ Hin]]; [contradiction|eauto]. }
+    assert (Hnewold : forall ax z nm e z', In (ax, z) (entry_axes (mkE l a1)) ->
+                      In (nm, e) (c_arrays c) -> nm <> name -> In (ax, z') (entry_axes e) -> z = z').
+    { intros ax z nm e z' Hz Hin Hne Hz'.
+      apply in_entry_axes in Hz. simpl in Hz. destruct Hz as [i [Hi [Hni ->]]].
+      assert (Hg : In (ax, z') (gna (c_arrays c) (Some name))).
+      { apply in_gna. exists nm, e. repeat split; auto. intros k E. inversion E. congruence. }
+      destruct (in_lookup _ _ _ Hg) as [v Hv].
+      assert (v = z').
+      { apply lookup_in, in_gna in Hv. destruct Hv as [nm3 [e3 [Hin3 [_ Hz3]]]].
+        pose proof (Hax _ _ _ _ Hin3 Hz3). pose proof (Hax _ _ _ _ Hin Hz'). congruence. }
+      subst v. exact (check_named_spec _ _ _ _ _ Hcn Hi Hni _ Hv). }
+    intros nm e ax z Hin Hz. apply lookup_consistent.
+    + apply in_gna. exists nm, e. repeat split; auto. discriminate.
+    + intros z' Hz'. apply in_gna in Hz'. destruct Hz' as [nm2 [e2 [Hin2 [_ Hz2]]]].
+      apply (in_set_assoc_strong _ _ _ _ _ Hk) in Hin. apply (in_set_assoc_strong _ _ _ _ _ Hk) in Hin2.
+      destruct Hin as [[-> ->]|[Hne Hin]]; destruct Hin2 as [[-> ->]|[Hne2 Hin2]].
+      * apply in_entry_axes in Hz, Hz2. simpl in Hz, Hz2.
+        destruct Hz as [i [_ [Hi ->]]]. destruct Hz2 as [j [_ [Hj ->]]].
+        now rewrite (names_index l ax i j Hl Hi Hj).
+      * symmetry. eapply Hnewold; eauto.
+      * eapply Hnewold; eauto.
+      * pose proof (Hax _ _ _ _ Hin Hz). pose proof (Hax _ _ _ _ Hin2 Hz2). congruence.
+Qed.
+
+(* ---- resize of a named axis *)
+Lemma resize_array_nth_axis a diff axis c :
+  axis < length (shp a) -> (diff =? 0)%Z = false ->
+  nth axis (shp (resize_array a diff axis c)) 0 = Z.to_nat (Z.of_nat (nth axis (shp a) 0) + diff).
+Proof.
+  intros H Hd. unfold resize_array. rewrite Hd. rewrite nth_resize_axis_shape by assumption.
+  now rewrite Nat.eqb_refl.
+Qed.
+
+Lemma is_name_eq ax x : is_name ax x = true -> x = LName ax.
+Proof. destruct x; simpl; try discriminate. intros H. apply Nat.eqb_eq in H. now subst. Qed.
+
+Lemma resize_entry_axes ax diff cst e cur ax' z' :
+  wf_entry e -> NoDup (names (e_lay e)) -> (diff =? 0)%Z = false ->
+  (forall z0, In (ax, z0) (entry_axes e) -> z0 = cur) ->
+  In (ax', z') (entry_axes (resize_entry ax diff cst e)) ->
+  (ax' = ax /\ z' = Z.to_nat (Z.of_nat cur + diff)) \/ (ax' <> ax /\ In (ax', z') (entry_axes e)).
+Proof.
+  intros [pre [rest [Hl [Hc [Hc' Hr]]]]] Hnd Hd Hcur Hin.
+  unfold resize_entry in Hin. destruct (has_name ax (e_lay e)) eqn:Hn.
+  - apply in_entry_axes in Hin. simpl in Hin. destruct Hin as [i [Hi [Hni ->]]].
+    destruct (resize_entry_pos ax e pre rest Hl Hc Hr Hn) as [Hp0 _].
+    pose proof (name_index_lt _ _ Hn) as Hi0. pose proof (is_name_eq _ _ (name_index_nth _ _ Hn)) as Hn0.
+    set (i0 := name_index ax (e_lay e)) in *. set (ndim := length (shp (e_arr e))) in *.
+    set (p0 := pos_of ndim (e_lay e) i0) in *.
+    rewrite resize_array_rank by assumption. fold ndim.
+    destruct (Nat.eq_dec ax' ax) as [->|Hne].
+    + left. split; [reflexivity|]. rewrite (names_index _ _ _ _ Hnd Hni Hn0). fold p0.
+      rewrite resize_array_nth_axis by assumption. f_equal. f_equal. f_equal.
+      apply Hcur. apply in_entry_axes. exists i0. repeat split; auto.
+    + right. split; [assumption|]. apply in_entry_axes. exists i. repeat split; auto.
+      apply resize_array_nth; [assumption|]. unfold p0. rewrite Hl in *.
+      apply pos_of_inj; auto.
+      * intros E. rewrite E, nth_ell_split in Hni. discriminate.
+      * intros E. rewrite E, nth_ell_split in Hn0. discriminate.
+      * intros E. rewrite E in Hni. rewrite Hni in Hn0. inversion Hn0. congruence.
+  - right. split; [|assumption]. intros ->.
+    apply in_entry_axes in Hin. destruct Hin as [i [Hi [Hni _]]].
+    unfold has_name in Hn. assert (existsb (is_name ax) (e_lay e) = true); [|congruence].
+    apply existsb_exists. exists (LName ax). split; [rewrite <- Hni; now apply nth_In|].
+    simpl. apply Nat.eqb_refl.
+Qed.
+
+Lemma axes_resize c ax size cst c' :
+  CacheInv c -> AxesOk c -> resize c ax size cst = Ok c' -> AxesOk c'.
+Proof.
+  intros [_ [_ Hwf]] [Hk [Hn Hax]] Hr. unfold resize in Hr.
+  destruct (lookup ax (c_axes c)) as [cur|] eqn:Ecur; [|discriminate].
+  destruct (Z.of_nat size - Z.of_nat cur =? 0)%Z eqn:Hd; [inversion Hr; subst; repeat split; auto|].
+  inversion Hr; subst c'; clear Hr. set (diff := (Z.of_nat size - Z.of_nat cur)%Z) in *.
+  set (arrs := map (fun p => (fst p, resize_entry ax diff cst (snd p))) (c_arrays c)).
+  unfold AxesOk. simpl. fold arrs.
+  assert (Hin' : forall nm e', In (nm, e') arrs -> exists e, In (nm, e) (c_arrays c) /\ e' = resize_entry ax diff cst e).
+  { intros nm e' H. apply in_map_iff in H. destruct H as [[k e] [E H]]. inversion E; subst. eauto. }
+  split; [|split].
+  - unfold arrs. rewrite map_map. simpl. exact Hk.
+  - intros nm e' H. destruct (Hin' _ _ H) as [e [Hin ->]]. rewrite resize_entry_lay. eauto.
+  - assert (Hcls : forall nm e' ax' z', In (nm, e') arrs -> In (ax', z') (entry_axes e') ->
+               (ax' = ax /\ z' = Z.to_nat (Z.of_nat cur + diff)) \/ (ax' <> ax /\ lookup ax' (c_axes c) = Some z')).
+    { intros nm e' ax' z' H Hz. destruct (Hin' _ _ H) as [e [Hin ->]].
+      destruct (resize_entry_axes ax diff cst e cur ax' z' (Hwf _ _ Hin) (Hn _ _ Hin) Hd) as [?|[? ?]]; auto.
+      - intros z0 Hz0. pose proof (Hax _ _ _ _ Hin Hz0). congruence.
+      - right. split; eauto. }
+    intros nm e' ax' z' H Hz. apply lookup_consistent.
+    + apply in_gna. exists nm, e'. repeat split; auto. discriminate.
+    + intros z2 Hz2. apply in_gna in Hz2. destruct Hz2 as [nm2 [e2 [H2 [_ Hz2]]]].
+      destruct (Hcls _ _ _ _ H Hz) as [[? ?]|[? ?]]; destruct (Hcls _ _ _ _ H2 Hz2) as [[? ?]|[? ?]];
+        try contradiction; congruence.
+Qed.
+
+(* ---- the remaining operations keep arrays' shapes and the cache, or only drop arrays *)
+Lemma axes_same_arrays c d : AxesOk c -> AxesOk (with_arrays c (c_arrays c) d (c_axes c)).
+Proof. intros H. exact H. Qed.
+
+Lemma axes_pop c name : AxesOk c -> AxesOk (fst (pop c name)).
+Proof.
+  intros [Hk [Hn Hax]]. unfold pop. destruct (lookup name (c_arrays c)); [|repeat split; auto]. simpl.
+  unfold AxesOk, with_arrays. simpl. split; [now apply filter_keys|]. split.
+  - intros nm e1 Hin. apply in_del_assoc in Hin. eauto.
+  - intros nm e1 ax z Hin. apply in_del_assoc in Hin. eauto.
+Qed.
+
+Lemma axes_update_inplace c name v rsz c' :
+  AxesOk c -> update c name v rsz = Ok (c', false) -> AxesOk c'.
+Proof.
+  intros [Hk [Hn Hax]] Hu. unfold update in Hu.
+  destruct (lookup name (c_arrays c)) as [e|]; [|discriminate].
+  destruct (assign_to v _) as [d|].
+  - inversion Hu; subst. unfold AxesOk. simpl. split; [|split].
+    + unfold set_data. rewrite map_map.
+      replace (map (fun x => fst (if name =? fst x then (fst x, mkE (e_lay (snd x)) (mkNd (shp (e_arr (snd x))) d)) else x)) (c_arrays c))
+        with (map fst (c_arrays c)); [exact Hk|].
+      apply map_ext. intros [k x]. simpl. destruct (name =? k); reflexivity.
+    + intros nm e' Hin. apply set_data_in in Hin. destruct Hin as [e0 [Hin [-> _]]]. eauto.
+    + intros nm e' ax z Hin Hz. apply set_data_in in Hin. destruct Hin as [e0 [Hin [H1 H2]]].
+      rewrite (entry_axes_ext e0 e' H1 H2) in Hz. eauto.
+  - destruct (set c name v None rsz false); inversion Hu.
+Qed.
+
+Lemma axes_init app : AxesOk (init app).
+Proof. unfold AxesOk, init, empty_coll, with_arrays. simpl. split; [constructor|]. split; intros; contradiction. Qed.
+
+(* ---- full invariant over all call histories *)
+Definition bop_names (o : bop) : Prop :=
+  match o with OSet _ _ (Some l) _ _ => NoDup (names l) | _ => True end.
+
+Definition Full (c : coll) : Prop := Inv c /\ AxesOk c.
+
+Lemma full_bstep c o c' p r :
+  bop_ok c o -> bop_names o -> Full c -> bstep c o = Ok (c', p, r) -> Full c'.
+Proof.
+  intros Hok Hnm [HI HA] Hs. split; [exact (inv_bstep _ _ _ _ _ Hok HI Hs)|].
+  destruct o; simpl in Hs, Hok, Hnm.
+  - destruct Hok as [Hp ->].
+    destruct (set c name a lay rsz true) eqn:E; inversion Hs; subst.
+    eapply axes_set; [|exact HA|exact E]. intros l ->. exact Hnm.
+  - destruct Hok as [Hp Hf].
+    destruct (update c name a rsz) as [[c1 p1]|] eqn:E; inversion Hs; subst.
+    destruct p; [|eapply axes_update_inplace; eauto].
+    eapply (axes_set c name a None rsz); [discriminate|exact HA|apply Hf; reflexivity].
+  - destruct (get c name bcast); inversion Hs; subst. exact HA.
+  - pose proof (axes_pop c name HA) as H. destruct (pop c name). inversion Hs; subst. exact H.
+  - destruct (resize c ax size cst) eqn:E; inversion Hs; subst. eapply axes_resize; eauto. apply HI.
+  - inversion Hs; subst. exact HA.
+  - inversion Hs; subst. exact HA.
+  - unfold broadcast in Hs. destruct (check_shape c sh [LEll] None); inversion Hs; subst. exact HA.
+Qed.
+
+Definition op_names (o : op) : Prop := match o with OMain b => bop_names b | _ => True end.
+Fixpoint names_run (h : list op) : Prop :=
+  match h with [] => True | o :: h' => op_names o /\ names_run h' end.
+
+Definition FullS (s : state) : Prop := Full (main s) /\ forall ch, child s = Some ch -> CacheInv ch.
+
+Lemma full_step s o : op_ok s o -> op_names o -> FullS s -> FullS (step_state s o).
+Proof.
+  intros Hok Hnm [[HI HA] Hc].
+  destruct (inv_step s o Hok (conj HI Hc)) as [HI' Hc'].
+  split; [split; [exact HI'|]|exact Hc'].
+  unfold step_state. destruct (step s o) as [[s' r]|] eqn:E; [|exact HA].
+  destruct o; simpl in E, Hok, Hnm.
+  - destruct (bstep (main s) o) as [[[c' p] r']|] eqn:Eb; inversion E; subst; clear E. simpl.
+    exact (proj2 (full_bstep _ _ _ _ _ Hok Hnm (conj HI HA) Eb)).
+  - destruct (child s) as [ch|]; [|discriminate].
+    destruct (bstep ch o) as [[[c' p] r']|]; inversion E; subst. exact HA.
+  - inversion E; subst. simpl. now rewrite copy_id.
+  - destruct (child s); inversion E; subst. exact HA.
+Qed.
+
+Theorem full_reachable app h :
+  ok_run (start app) h -> names_run h -> FullS (run (start app) h).
+Proof.
+  assert (G : forall h s, ok_run s h -> names_run h -> FullS s -> FullS (run s h)).
+  { unfold run. induction h0 as [|o h0 IH]; intros s Hok Hnm HF; simpl; [assumption|].
+    destruct Hok as [H1 H2]. destruct Hnm as [N1 N2]. apply IH; auto. now apply full_step. }
+  intros Hok Hnm. apply G; auto. split; [split; [apply inv_init|apply axes_init]|]. simpl. discriminate.
+Qed.
+
+(* named axes have one size across all arrays *)
+Theorem named_axes_single c nm1 e1 nm2 e2 ax z1 z2 :
+  AxesOk c -> In (nm1, e1) (c_arrays c) -> In (nm2, e2) (c_arrays c) ->
+  In (ax, z1) (entry_axes e1) -> In (ax, z2) (entry_axes e2) -> z1 = z2.
+Proof.
+  intros [_ [_ H]] H1 H2 Hz1 Hz2. pose proof (H _ _ _ _ H1 Hz1). pose proof (H _ _ _ _ H2 Hz2). congruence.
+Qed.
+
+Lemma demo_names : names_run demo_history.
+Proof. unfold demo_history. cbn [names_run op_names bop_names]. repeat split; repeat constructor; simpl; intuition discriminate. Qed.
